@@ -206,7 +206,8 @@ func (tr *Tr) sumSizeDecl() {
 
 // arrayCountAxioms declares acntge(a, lo, hi, v) = #{p in [lo,hi) : a[p] >= v} and acntgt (strict) together with the
 // elementary counting lemmas used with them. These are mathematical facts about finite counting (trusted, listed):
-//   L1 point update, L3 order statistics of a sorted window, L4 the all-zero array, range.
+//
+//	L1 point update, L3 order statistics of a sorted window, L4 the all-zero array, range.
 func (tr *Tr) arrayCountAxioms() {
 	if tr.sc.declared["|acntge|"] {
 		return
